@@ -492,4 +492,114 @@ class Flat(Harness):
         return None
 
 
-HARNESSES = [Ragged(), Flat()]
+class RaggedSlice(Harness):
+    """bnp.ragged_slice: per-row column slices row[a_i:b_i] with per-row bounds"""
+    name = "ragged_slice"
+    functions = ("bionumpy.util.ragged_slice.ragged_slice", "npstructures ragged_slice / RaggedView.get_flat_indices")
+    bounds = {"quick": "one row of 1 or 3 characters (ASCII, ACGTN), starts only / ends only / both; row patterns [2,2], [3,0,1] on the array and "
+                       "on row selections (tail, reversal); starts 0..len+1, ends -len-1..len+1 symbolic per row",
+              "thorough": "adds [1,3,2], [3,0,1,4] (starts or ends only), [0,0,2] with every selection and bound combination"}
+
+    def skeletons(self, tier, seed):
+        # on the current tree only one-row arrays with explicit starts are right (known finding C07-ragged-slice-flat-offsets); the
+        # multi-row skeletons are kept small in the quick tier: they exist to notice when the finding's extent changes
+        out = []
+        for kind in ("ascii", "ACGTnEncoding"):
+            for lens in ([1], [3]):
+                for which in ("both", "starts", "ends"):
+                    out.append(dict(kind=kind, lens=lens, sel="all", which=which))
+        multi = [([2, 2], "all", "both"), ([3, 0, 1], "tail", "both"), ([2, 2], "rev", "starts")]
+        if tier == "thorough":
+            multi += [(l, s_, w) for l in ([1, 3, 2], [3, 0, 1, 4], [0, 0, 2]) for s_ in ("all", "tail", "rev") for w in ("both", "starts", "ends")
+                      if not (len(l) == 4 and w == "both")]        # 8 symbolic bounds exceed the path budget
+        for lens, sel, which in multi:
+            out.append(dict(kind="ascii", lens=lens, sel=sel, which=which))
+        return out
+
+    def _sel_rows(self, skel):
+        idx = list(range(len(skel["lens"])))
+        return {"all": idx, "tail": idx[1:], "rev": idx[::-1]}[skel["sel"]]
+
+    def inputs(self, skel, V):
+        lo, hi = (65, 90) if skel["kind"] == "ascii" else (0, len(ALPH[skel["kind"]]) - 1)
+        for i in range(sum(skel["lens"])):
+            V.int(f"l{i}", lo, hi)
+        for r in self._sel_rows(skel):
+            L = skel["lens"][r]
+            if skel["which"] in ("both", "starts"):
+                V.int(f"a{r}", 0, L + 1)
+            if skel["which"] in ("both", "ends"):
+                V.int(f"b{r}", -L - 1, L + 1)
+
+    def call(self, skel, x, ctx):
+        import bionumpy as bnp
+        from bionumpy.encoded_array import EncodedArray, EncodedRaggedArray
+        enc = enc_of(skel["kind"])
+        n = sum(skel["lens"])
+        e = EncodedRaggedArray(EncodedArray(ctx.arr([x[f"l{i}"] for i in range(n)], "uint8"), enc), list(skel["lens"]))
+        src = e
+        e = {"all": lambda: e, "tail": lambda: e[1:], "rev": lambda: e[::-1]}[skel["sel"]]()
+        rows = self._sel_rows(skel)
+        starts = ctx.arr([x[f"a{r}"] for r in rows], "int64") if skel["which"] in ("both", "starts") else None
+        ends = ctx.arr([x[f"b{r}"] for r in rows], "int64") if skel["which"] in ("both", "ends") else None
+        r = bnp.ragged_slice(e, starts, ends)
+        assert r.encoding == enc
+        return dict(rows=_ragged_rows(ctx, r), src=ctx.lst(src.ravel().raw()))
+
+    def _bounds(self, skel, r, g):
+        L = skel["lens"][r]
+        a = g(f"a{r}") if skel["which"] in ("both", "starts") else 0
+        b = g(f"b{r}") if skel["which"] in ("both", "ends") else L
+        return L, a, b
+
+    def post(self, skel, x, out):
+        if isinstance(out, Exc):
+            return False
+        rows = self._sel_rows(skel)
+        if len(out["rows"]) != len(rows):
+            return False
+        offs = [sum(skel["lens"][:r]) for r in range(len(skel["lens"]))]
+        conj = [TI(v) == x[f"l{i}"].t for i, v in enumerate(out["src"])] if len(out["src"]) == sum(skel["lens"]) else [z3.BoolVal(False)]
+        for got, r in zip(out["rows"], rows):
+            L, a, b = self._bounds(skel, r, lambda nm: x[nm].t)
+            a = a if not isinstance(a, int) else z3.IntVal(a)
+            b = b if not isinstance(b, int) else z3.IntVal(b)
+            lo = z3.If(a > L, L, a)
+            hi = z3.If(b < 0, z3.If(L + b < 0, 0, L + b), z3.If(b > L, L, b))
+            cnt = z3.If(hi - lo > 0, hi - lo, 0)
+            conj.append(cnt == len(got))
+            for k, v in enumerate(got):
+                t = z3.IntVal(-1)
+                for p in range(L):
+                    t = z3.If(lo + k == p, x[f"l{offs[r] + p}"].t, t)
+                conj.append(TI(v) == t)
+        return z_and(conj)
+
+    def oracle(self, skel, cx, cout):
+        if isinstance(cout, Exc):
+            return f"ragged_slice raised {cout!r}"
+        rows = self._sel_rows(skel)
+        offs = [sum(skel["lens"][:r]) for r in range(len(skel["lens"]))]
+        txt = lambda codes: "".join(chr(c) if skel["kind"] == "ascii" else ALPH[skel["kind"]][c] for c in codes)
+        exp, args = [], []
+        for r in rows:
+            L, a, b = self._bounds(skel, r, lambda nm: cx[nm])
+            row = [cx[f"l{offs[r] + p}"] for p in range(L)]
+            exp.append(row[a:b])
+            args.append((txt(row), a, b))
+        got = [[int(v) for v in g] for g in cout["rows"]]
+        if got != exp:
+            return f"ragged_slice rows (text, start, end) = {args}: {[txt(g) for g in got]}, expected {[txt(g) for g in exp]}"
+        return None
+
+
+def _ragged_rows(ctx, r):
+    flat = ctx.lst(r.ravel().raw())
+    lens = [int(v) for v in ctx.lst(r.lengths)] if hasattr(r, "lengths") else [int(v) for v in ctx.lst(r.shape[-1])]
+    out, k = [], 0
+    for L in lens:
+        out.append(flat[k:k + L]); k += L
+    return out
+
+
+HARNESSES = [Ragged(), Flat(), RaggedSlice()]
